@@ -196,7 +196,77 @@ def storm_scripts(rng, thorough):
     return out
 
 
+def gated_scripts(rng, thorough):
+    """the two-step Limiter protocol (quota.Inc, later quota.Allowed) under directed interleavings: a transaction is held at
+    the yield point limiter.after_inc while the clock advances and other transactions restart the window 0..3 times;
+    windows full and not full when it was counted; one or two transactions held; root quota and child + parent."""
+    out = []
+    cfgs = []
+    for mx in (1, 2):
+        cfgs.append(({"quotas": ["g1"], "parent": {"g1": "-"}, "Max": {"g1": mx}, "W": {"g1": 2}, "grouped": {"g1": False},
+                      "groups": ["a", "b", "default"], "custom": False}, "g1"))
+    cfgs.append(({"quotas": ["gp", "gc"], "parent": {"gp": "-", "gc": "gp"}, "Max": {"gp": 3, "gc": 1}, "W": {"gp": 4, "gc": 2},
+                  "grouped": {"gp": False, "gc": True}, "groups": ["a", "b", "default"], "custom": False}, "gc"))
+    for cfg, q in cfgs:
+        w, mx = cfg["W"][q], cfg["Max"][q]
+        hs = []
+
+        def go():
+            return {"op": "go", "q": q, "g": "a", "cost": 1}
+        for fill in (mx - 1, mx):
+            for r in (0, 1, 2, 3):
+                for d in (w, w + 1):
+                    steps = [go() for _ in range(fill)] + [{"op": "inc", "i": 0, "q": q, "g": "a", "cost": 1}]
+                    for _ in range(r):
+                        steps += [{"op": "adv", "d": d}, go()]
+                    steps += [{"op": "allowed", "i": 0}, go()]
+                    hs.append([{"ev": "reset", "now": 2 + (r % 2)}, {"ev": "gated", "steps": steps}])
+        # two transactions held, released in the other order, with restarts in between
+        for fill in (mx - 1, mx):
+            steps = [go() for _ in range(fill)] + [{"op": "inc", "i": 0, "q": q, "g": "a", "cost": 1}, {"op": "inc", "i": 1, "q": q, "g": "a", "cost": 1},
+                                                   {"op": "adv", "d": w}, go(), {"op": "allowed", "i": 1}, {"op": "adv", "d": w}, go(),
+                                                   {"op": "adv", "d": w}, go(), {"op": "allowed", "i": 0}, go()]
+            hs.append([{"ev": "reset", "now": 2}, {"ev": "gated", "steps": steps}])
+        # random schedules
+        for _ in range(6 if not thorough else 30):
+            steps, parked, nxt = [], [], 0
+            for _ in range(rng.randint(6, 14)):
+                x = rng.random()
+                if x < 0.3 and len(parked) < 3:
+                    steps.append({"op": "inc", "i": nxt, "q": rng.choice(cfg["quotas"]), "g": rng.choice(["a", "a", "b"]), "cost": 1})
+                    parked.append(nxt)
+                    nxt += 1
+                elif x < 0.5 and parked:
+                    i = rng.choice(parked)
+                    parked.remove(i)
+                    steps.append({"op": "allowed", "i": i})
+                elif x < 0.75:
+                    steps.append({"op": "adv", "d": rng.choice([1, w - 1, w, w, w + 1, 2 * w])})
+                else:
+                    steps.append({"op": "go", "q": rng.choice(cfg["quotas"]), "g": rng.choice(["a", "a", "b"]), "cost": 1})
+            steps = [st for st in steps if not (st["op"] == "adv" and st["d"] < 1)]
+            hs.append([{"ev": "reset", "now": rng.randint(2, 7)}, {"ev": "gated", "steps": steps}])
+        out.append(script_of(cfg, hs))
+    return out
+
+
 def script_of_history(hist):
+    if any(e.get("gated") for e in hist):
+        # a directed schedule: rebuild the steps from the recording
+        steps, parked = [], {}
+        it = iter(range(len(hist)))
+        for k in it:
+            e = hist[k]
+            if e["ev"] == "adv":
+                steps.append({"op": "adv", "d": e["d"]})
+            elif e["ev"] == "begin" and e.get("gated"):
+                parked[e["id"]] = len(parked)
+                steps.append({"op": "inc", "i": parked[e["id"]], "q": e["q"], "g": e["g"], "cost": e["cost"]})
+            elif e["ev"] == "begin":
+                steps.append({"op": "go", "q": e["q"], "g": e["g"], "cost": e["cost"]})
+            elif e["ev"] == "end" and e["id"] in parked:
+                steps.append({"op": "allowed", "i": parked[e["id"]]})
+        return [{"ev": "reset", "now": hist[0]["now"]}, {"ev": "gated", "steps": steps}]
     """strip outcomes from a recorded history -> script events (concurrent groups re-assembled)."""
     out, conc, open_ids = [], None, set()
     for e in hist:
@@ -323,12 +393,14 @@ GEN_CONFIG = {"quotas": ["p", "c1", "c2", "z"], "parent": {"p": "-", "c1": "p", 
               "grouped": {"p": False, "c1": True, "c2": False, "z": True}, "groups": ["a", "b", "default"]}
 
 SEQ_VARIANTS = ["strict_gt", "no_delete", "no_parent", "no_error", "no_group"]      # each must be refuted by TLC
-CONC_VARIANTS = ["racy_inc", "no_error"]
+CONC_VARIANTS = ["racy_inc", "allow_unknown", "no_error"]
 
 
 def variant_cfg(sd, base, variant, drop=()):
     """MC cfg of a deliberately broken model variant (non-vacuity)."""
     txt = open(os.path.join(sd, base)).read().replace('Variant = "none"', 'Variant = "%s"' % variant)
+    if variant == "allow_unknown":       # needs a fourth transaction: one held across two window restarts by two others
+        txt = txt.replace('Ids = {"x", "y", "z"}', 'Ids = {"x", "y", "z", "u"}')
     for d in drop:
         txt = txt.replace(d, "")
     name = base.replace(".cfg", "_%s.cfg" % variant)
@@ -369,7 +441,7 @@ def run(ctx):
         jobs.append(("ex", "MC_C01", "MC_seq_small.cfg", "seq: I refines P, Exact, NoCarry (small)"))
         jobs.append(("ok", "MC_C01", variant_cfg(sd, "MC_seq_small.cfg", "no_trunc"), "benign variant no_trunc must pass"))
     jobs += [("nv", "MC_C01", variant_cfg(sd, "MC_seq_small.cfg", v, ("MemoClean",)), v) for v in (SEQ_VARIANTS if T else SEQ_VARIANTS[:3])]
-    jobs += [("nv", "MC_C01", variant_cfg(sd, "MC_conc_small.cfg", v), v) for v in (CONC_VARIANTS if T else CONC_VARIANTS[:1])]
+    jobs += [("nv", "MC_C01", variant_cfg(sd, "MC_conc_small.cfg", v), v) for v in (CONC_VARIANTS if T else CONC_VARIANTS[:2])]
     jobs.append(("gen", "GenC01", "GenC01.cfg", "behaviour generation"))
 
     def tl(job):
@@ -392,6 +464,7 @@ def run(ctx):
         scripts.append(script_of(cfg, [rand_history(ctx.rng, cfg, hl, conc=(i % 2 == 1)) for i in range(nh)], hooks=True))
     nrand = len(scripts)
     scripts += storm_scripts(ctx.rng, T)
+    scripts += gated_scripts(ctx.rng, T)
     rtraces = execute(ctx, binary, scripts, "rand")
     ctx.sample({"kind": "recorded-trace", "events": rtraces[0][:14]})
     judge(ctx, binary, scripts, rtraces, "rand", seen)
